@@ -13,3 +13,7 @@ func verifFinFlags(_, _ bool) uint64 { return 0 }
 func verifBatcherID(_ *Batcher) uint64 { return 0 }
 
 func verifTraceGet(_ *stream, _ *Event) {}
+
+func verifSpawn(_, _ *Event, _ int, _ uint64) {}
+
+func verifEventID(_ *Event) uint64 { return 0 }
